@@ -431,7 +431,10 @@ func init() {
 			return nil
 		}
 		if !n.IsFalse() {
-			panic(encErr("big.Int.Bit of possibly negative value"))
+			// the sign is a term: fine when the path condition excludes a negative value
+			if sat, _, ok := e.feasible(st, n); sat || !ok {
+				panic(encErr("big.Int.Bit of possibly negative value"))
+			}
 		}
 		i := a[1].(*Term)
 		if !e.require(st, e.ts.Not(e.ts.Slt(i, e.c64(0))), "negative bit index", in) {
